@@ -1,6 +1,6 @@
 import Zc.Model.BrowserCb
 import Zc.Model.Reentrant
-/-! `_ServiceBrowserBase.async_update_records_complete` when a handler re-enters the record manager (D25).
+/-! `_ServiceBrowserBase.async_update_records_complete` when a handler re-enters the record manager (D24b).
 
 ```python
 for pending in self._pending_handlers.items():
